@@ -1907,6 +1907,28 @@ def run_c09(ctx: fw.Ctx) -> None:
                 got = option_error_pos(src, typed, iu)
                 if got[0] == "other":
                     st_o.fail(f"Parser(typed={typed}, ignore_unicode_errors={iu}) raised {got[1]}", case)
+    st_t = ctx.stream("parse after the legacy switch include_typing(False/True) was used: still an AST or LexerError / ParserError, for untyped and typed parsers")
+    import tumfl.lexer as _lx
+    if hasattr(_lx, "include_typing"):
+        state0 = "as" in getattr(_lx, "RESERVED_KEYWORDS", {})
+        try:
+            for seq in ([False], [True], [False, False], [True, False], [False, True], [True, True, False]):
+                for b in seq:
+                    with quiet():
+                        try:
+                            _lx.include_typing(b)
+                        except Exception as e:  # noqa: BLE001
+                            st_t.fail(f"include_typing({b}) raised {type(e).__name__}: {e}", {"kind": "history", "calls": [["include_typing", x] for x in seq]})
+                for src in ["", "x = 1", "local as, is = 1, 2 return as + is", "x as y", "x = ", "#"]:
+                    for typed in (False, True):
+                        case = {"kind": "history", "calls": [["include_typing", x] for x in seq] + [["parse_opts", src, typed, False]]}
+                        st_t.record(case, key=json.dumps(case, sort_keys=True))
+                        got = option_error_pos(src, typed, False)
+                        if got[0] == "other":
+                            st_t.fail(f"after include_typing{tuple(seq)}: Parser(typed={typed}) raised {got[1]}", case)
+        finally:
+            _restore_typing(state0)
+    st_t.exhaustive = True
     st7 = ctx.stream("nesting up to the quantifier's bound (20) in every recursive construct, and long flat chains, closed and truncated")
     deep = []
     for n in (10, 20):
@@ -2283,7 +2305,9 @@ def run_c18(ctx: fw.Ctx) -> None:
             continue
         da, db = struct_dump(a), struct_dump(b)
         if da != db:
-            raise fw.InfraError(f"re-laid-out copy has a different structure: {a_src!r} vs {b_src!r}")
+            # the two texts are the same token sequence by construction (only blanks, line breaks and comments differ)
+            st_eq.fail("the same token sequence in another layout gives a tree with different attribute values (layout or comment data stored in an attribute that == compares)", case)
+            continue
         if not (a == b) or not (b == a):
             st_eq.fail("ASTs of the same program in a different layout compare unequal", case)
         # observers must not change what == says: print one side, compare, print the other, compare
@@ -2339,9 +2363,22 @@ def run_c18(ctx: fw.Ctx) -> None:
         stt, a = tparse(f"x = {n}")
         if stt == "ok":
             parsed[n] = a
+    def numeral_key(sp: str):
+        """the digits AS WRITTEN (independent of what the node stores): radix, integer digits, fraction digits (an empty fraction leaves no trace: K2), exponent with its sign"""
+        t = sp.lower()
+        hexa = t.startswith("0x")
+        body = t[2:] if hexa else t
+        mark = "p" if hexa else "e"
+        mant, _, expo = body.partition(mark)
+        ip, dot, fp = mant.partition(".")
+        return (hexa, ip, fp if dot and fp else None, expo if mark in body else None)
+
     for n1, a in parsed.items():
         for n2, b in parsed.items():
             same = struct_dump(a) == struct_dump(b)
+            if same != (numeral_key(n1) == numeral_key(n2)):
+                st_n.fail("the digits a Number node stores are not the digits that were written", {"kind": "pair", "a": f"x = {n1}", "b": f"x = {n2}", "stored_equal": same})
+                continue
             case = {"kind": "pair", "a": f"x = {n1}", "b": f"x = {n2}", "structurally_equal": same}
             st_n.record(case, key=n1 + "|" + n2, nontrivial=(n1 != n2))
             if (a == b) != same:
